@@ -84,11 +84,102 @@ c17_clamp_float!(ty: f64, wrappers: wc_f64,
     contract_clamped01: c17_contract_clamped01_f64, contract_clamped_minus1_1: c17_contract_clamped_minus1_1_f64,
     laws: c17_clamp_laws_f64, clamped_panics: c17_clamped_f64_panics_when_not_ordered, is_between_panics: c17_is_between_f64_panics_when_not_ordered);
 
-// ---- experiments
+// ---------------------------------------------------------------------------------------------
+// f32 Wrap family.  "lies in [0,upper] and is congruent to the input, both up to a few units in the last
+// place of the input's magnitude".
+//
+//   tol32(v, u) = 4 ulp of max(|v|, u)  (+ 4 subnormal ulps)        -- the tolerance used below
+//   domain      : |v| <= 1e38, upper <= 1e38 (5e37 for pingpong) and v/upper finite; outside of it
+//                 vek's intermediate `floor(v/upper) * upper` overflows and the result is +-inf
+//                 (known_failing harnesses below give concrete inputs).
+//
+// CBMC cannot decide the general claims (symbolic 24-bit significand of `upper` => a symbolic divider and
+// multiplier): the harnesses `c17_unregistered_*` at the end of this file ran for > 1500 s without a verdict
+// and are NOT registered.  Registered instead are bounded forms that do finish:
+//   *_upper_few_bits : upper (and lower) restricted to floats with at most 4 significant bits
+//                      (1.xxx * 2^e, which includes every power of two and 1.5, 1.25, 3, 5, 6, 7 ... times one)
+//                      with v ranging over the whole domain above;
+//   *_bounded1024 / *_bounded65536 : the constant-period functions (wrapped_2pi, delta_angle,
+//                      delta_angle_degrees) with |inputs| <= 1024 resp. 65536 and every significand.
+// ---------------------------------------------------------------------------------------------
+const PI32: f32 = core::f32::consts::PI;
+const TAU32: f32 = core::f32::consts::TAU;
+/// 4 ulp of max(|v|, u), plus 4 subnormal ulps so that the bound does not vanish by underflow.
 fn tol32(v: f32, u: f32) -> f32 { (if v.abs() > u { v.abs() } else { u }) * (1.0 / 2097152.0) + 5.6e-45 }
+/// at most 4 significant bits (implicit one + 3 fraction bits)
 fn few_bits(u: f32) -> bool { u.to_bits() & 0x000F_FFFF == 0 }
+
+mod wf32 {
+    use super::*;
+    #[kani::requires(v.abs() <= 1024.0)]
+    #[kani::ensures(|r: &f32| -tol32(v, TAU32) <= *r && *r <= TAU32 + tol32(v, TAU32))]
+    pub fn wrapped_2pi_1024(v: f32) -> f32 { v.wrapped_2pi() }
+
+    // the angle difference lies in (-pi, pi] EXACTLY on this domain
+    #[kani::requires(s.abs() <= 1024.0 && t.abs() <= 1024.0)]
+    #[kani::ensures(|r: &f32| -PI32 < *r && *r <= PI32)]
+    pub fn delta_angle_1024(s: f32, t: f32) -> f32 { s.delta_angle(t) }
+
+    #[kani::requires(s.abs() <= 1024.0 && t.abs() <= 1024.0)]
+    #[kani::ensures(|r: &f32| -180.0 < *r && *r <= 180.0)]
+    pub fn delta_angle_degrees_1024(s: f32, t: f32) -> f32 { s.delta_angle_degrees(t) }
+}
+#[kani::proof_for_contract(wf32::wrapped_2pi_1024)]
+fn c17_contract_wrapped_2pi_f32_bounded1024() { wf32::wrapped_2pi_1024(kani::any()); assert!(<f32 as Wrap>::wrap_2pi(1.0) == 1.0f32.wrapped_2pi()); }
+#[kani::proof_for_contract(wf32::delta_angle_1024)]
+fn c17_contract_delta_angle_f32_bounded1024() { wf32::delta_angle_1024(kani::any(), kani::any()); }
+#[kani::proof_for_contract(wf32::delta_angle_degrees_1024)]
+fn c17_contract_delta_angle_degrees_f32_bounded1024() { wf32::delta_angle_degrees_1024(kani::any(), kani::any()); }
+
+// ---- larger magnitudes (thorough) ----
 #[kani::proof]
-fn c17_z_wrapped_f32_fewbits() {
+fn c17_wrapped_2pi_f32_range_bounded65536() {
+    let v: f32 = kani::any();
+    kani::assume(v.abs() <= 65536.0);
+    let r = v.wrapped_2pi();
+    let tol = tol32(v, TAU32);
+    assert!(-tol <= r && r <= TAU32 + tol);
+}
+#[kani::proof]
+fn c17_delta_angle_f32_range_bounded65536() {
+    let s: f32 = kani::any(); let t: f32 = kani::any();
+    kani::assume(s.abs() <= 65536.0 && t.abs() <= 65536.0);
+    let r = s.delta_angle(t);
+    assert!(-PI32 < r && r <= PI32);
+}
+#[kani::proof]
+fn c17_delta_angle_degrees_f32_range_bounded65536() {
+    let s: f32 = kani::any(); let t: f32 = kani::any();
+    kani::assume(s.abs() <= 65536.0 && t.abs() <= 65536.0);
+    let r = s.delta_angle_degrees(t);
+    assert!(-180.0 < r && r <= 180.0);
+}
+// ---- congruence: (input - result) is an integer multiple of the period up to the tolerance.
+// The integer witness k is floor(input/period) (any way of obtaining an integral k is sound); the
+// residual is evaluated exactly in f64 (k < 2^24, so k * period is exact there).
+#[kani::proof]
+fn c17_wrapped_2pi_f32_congruent_bounded1024() {
+    let v: f32 = kani::any();
+    kani::assume(v.abs() <= 1024.0);
+    let r = v.wrapped_2pi();
+    let k = (v / TAU32).floor();
+    let e = v as f64 - k as f64 * TAU32 as f64 - r as f64;
+    assert!(e.abs() <= tol32(v, TAU32) as f64);
+}
+#[kani::proof]
+fn c17_delta_angle_degrees_f32_congruent_bounded65536() {
+    let s: f32 = kani::any(); let t: f32 = kani::any();
+    kani::assume(s.abs() <= 65536.0 && t.abs() <= 65536.0);
+    let r = s.delta_angle_degrees(t);
+    let d = t - s;                       // (the rounding of t - s itself is within half an ulp of the inputs)
+    let k = (d / 360.0).floor();
+    let e = d as f64 - k as f64 * 360.0 - r as f64;
+    let tol = tol32(d, 360.0) as f64;
+    assert!(e.abs() <= tol || (e - 360.0).abs() <= tol);   // k or k + 1 periods removed
+}
+// ---- symbolic upper with few significant bits, v over the whole domain (thorough) ----
+#[kani::proof]
+fn c17_wrapped_f32_range_upper_few_bits() {
     let v: f32 = kani::any(); let u: f32 = kani::any();
     kani::assume(v.abs() <= 1e38 && u <= 1e38 && u > 0.0 && few_bits(u) && (v / u).is_finite());
     let r = v.wrapped(u);
@@ -97,7 +188,7 @@ fn c17_z_wrapped_f32_fewbits() {
     assert!(-tol <= r && r <= u + tol);
 }
 #[kani::proof]
-fn c17_z_wrapped_f32_fewbits_congruent() {
+fn c17_wrapped_f32_congruent_upper_few_bits() {
     let v: f32 = kani::any(); let u: f32 = kani::any();
     kani::assume(v.abs() <= 1e38 && u <= 1e38 && u > 0.0 && few_bits(u) && (v / u).abs() <= 16777216.0);
     let r = v.wrapped(u);
@@ -106,7 +197,7 @@ fn c17_z_wrapped_f32_fewbits_congruent() {
     assert!(e.abs() <= tol32(v, u) as f64);
 }
 #[kani::proof]
-fn c17_z_pingpong_f32_fewbits() {
+fn c17_pingpong_f32_range_upper_few_bits() {
     let v: f32 = kani::any(); let u: f32 = kani::any();
     kani::assume(v.abs() <= 1e38 && u <= 5e37 && u > 0.0 && few_bits(u) && (v / (u + u)).is_finite());
     let r = v.pingpong(u);
@@ -115,7 +206,7 @@ fn c17_z_pingpong_f32_fewbits() {
     assert!(-tol <= r && r <= u);
 }
 #[kani::proof]
-fn c17_z_wrapped_between_f32_fewbits() {
+fn c17_wrapped_between_f32_range_bounds_few_bits() {
     let v: f32 = kani::any(); let lo: f32 = kani::any(); let hi: f32 = kani::any();
     kani::assume(v.abs() <= 1e37 && 0.0 <= lo && lo < hi && hi <= 1e37 && few_bits(lo) && few_bits(hi) && ((v - lo) / (hi - lo)).is_finite());
     let r = v.wrapped_between(lo, hi);
@@ -123,71 +214,50 @@ fn c17_z_wrapped_between_f32_fewbits() {
     assert!(!r.is_nan());
     assert!(lo - tol <= r && r <= hi + tol);
 }
+
+// ---- known_failing: finite inputs outside the domain above / tolerance in ulps of the value only ----
+/// finite v, finite upper > 0  =>  finite result.   FAILS: v/upper overflows, e.g. (-0.5).wrapped(1e-45) == +inf
 #[kani::proof]
-fn c17_z_delta_angle_f32_1024() {
-    let s: f32 = kani::any(); let t: f32 = kani::any();
-    kani::assume(s.abs() <= 1024.0 && t.abs() <= 1024.0);
-    let r = s.delta_angle(t);
-    assert!(-core::f32::consts::PI < r && r <= core::f32::consts::PI);
-}
-#[kani::proof]
-fn c17_z_delta_angle_degrees_f32_congruent() {
-    let s: f32 = kani::any(); let t: f32 = kani::any();
-    kani::assume(s.abs() <= 65536.0 && t.abs() <= 65536.0);
-    let r = s.delta_angle_degrees(t);
-    let d = t - s;
-    let k = (d / 360.0).floor();
-    let e = d as f64 - k as f64 * 360.0 - r as f64;
-    let tol = tol32(d, 360.0) as f64;
-    assert!(e.abs() <= tol || (e - 360.0).abs() <= tol);
-}
-#[kani::proof]
-fn c17_z_wrapped_2pi_f32_1024() {
-    let v: f32 = kani::any();
-    kani::assume(v.abs() <= 1024.0);
-    let r = v.wrapped_2pi();
-    let tol = tol32(v, core::f32::consts::TAU);
-    assert!(-tol <= r && r <= core::f32::consts::TAU + tol);
-}
-#[kani::proof]
-fn c17_q_wrapped_f32_symbolic_small() {
+fn c17_wrapped_f32_finite_inputs_finite_result() {
     let v: f32 = kani::any(); let u: f32 = kani::any();
-    kani::assume(v.abs() <= 64.0 && 1.0 <= u && u <= 64.0);
+    kani::assume(v.is_finite() && u.is_finite() && u > 0.0);
+    let r = v.wrapped(u);
+    assert!(r.is_finite());
+}
+/// quotient finite is not enough either: floor(v/upper) * upper can still overflow at the top of the range.
+/// FAILS, e.g. f32::MAX.wrapped(1.999969) == -inf
+#[kani::proof]
+fn c17_wrapped_f32_range_quotient_finite_only() {
+    let v: f32 = kani::any(); let u: f32 = kani::any();
+    kani::assume(v.is_finite() && u.is_finite() && u > 0.0 && (v / u).is_finite());
     let r = v.wrapped(u);
     let tol = tol32(v, u);
     assert!(-tol <= r && r <= u + tol);
 }
+/// same for pingpong.  FAILS, e.g. (-3.190151e38).pingpong(2.658456e37) is not in [0, upper]
 #[kani::proof]
-fn c17_q_wrapped_2pi_f32_congruent_1024() {
-    let v: f32 = kani::any();
-    kani::assume(v.abs() <= 1024.0);
-    let r = v.wrapped_2pi();
-    let k = (v / core::f32::consts::TAU).floor();
-    let e = v as f64 - k as f64 * core::f32::consts::TAU as f64 - r as f64;
-    assert!(e.abs() <= tol32(v, core::f32::consts::TAU) as f64);
+fn c17_pingpong_f32_range_quotient_finite_only() {
+    let v: f32 = kani::any(); let u: f32 = kani::any();
+    kani::assume(v.is_finite() && u.is_finite() && u > 0.0 && (u + u).is_finite() && (v / (u + u)).is_finite());
+    let r = v.pingpong(u);
+    let tol = tol32(v, u);
+    assert!(-tol <= r && r <= u);
 }
+/// tolerance of 4 ulp OF THE VALUE ONLY (the literal reading of the property).  FAILS when v/upper
+/// underflows to -0: (-7.826018e-39).wrapped(4.467457e7) == -7.826018e-39 (negative; ~upper expected).
 #[kani::proof]
-fn c17_q_delta_angle_f32_congruent_1024() {
-    let s: f32 = kani::any(); let t: f32 = kani::any();
-    kani::assume(s.abs() <= 1024.0 && t.abs() <= 1024.0);
-    let r = s.delta_angle(t);
-    let d = t - s;
-    let tau = core::f32::consts::TAU;
-    let k = (d / tau).floor();
-    let e = d as f64 - k as f64 * tau as f64 - r as f64;
-    let tol = tol32(d, tau) as f64;
-    assert!(e.abs() <= tol || (e - tau as f64).abs() <= tol);
+fn c17_wrapped_f32_range_tolerance_in_ulps_of_value_only() {
+    let v: f32 = kani::any(); let u: f32 = kani::any();
+    kani::assume(v.abs() <= 1e38 && u <= 1e38 && u > 0.0 && (v / u).is_finite());
+    let r = v.wrapped(u);
+    let tol = v.abs() * (1.0 / 2097152.0) + 5.6e-45;
+    assert!(-tol <= r && r <= u + tol);
 }
-#[kani::proof]
-fn c17_q_delta_angle_degrees_f32_1024() {
-    let s: f32 = kani::any(); let t: f32 = kani::any();
-    kani::assume(s.abs() <= 1024.0 && t.abs() <= 1024.0);
-    let r = s.delta_angle_degrees(t);
-    assert!(-180.0 < r && r <= 180.0);
-}
+
+// ---- documented panics (every input of the assumed domain panics; NaN bounds included) ----
 #[kani::proof]
 #[kani::should_panic]
-fn c17_q_wrapped_f32_panics() {
+fn c17_wrapped_f32_panics_when_upper_not_positive() {
     let v: f32 = kani::any(); let u: f32 = kani::any();
     kani::assume(!(u > 0.0));
     let _ = v.wrapped(u);
@@ -195,7 +265,7 @@ fn c17_q_wrapped_f32_panics() {
 }
 #[kani::proof]
 #[kani::should_panic]
-fn c17_q_wrapped_between_f32_panics() {
+fn c17_wrapped_between_f32_panics_when_bounds_bad() {
     let v: f32 = kani::any(); let lo: f32 = kani::any(); let hi: f32 = kani::any();
     kani::assume(!(lo < hi && lo >= 0.0));
     let _ = v.wrapped_between(lo, hi);
@@ -203,9 +273,65 @@ fn c17_q_wrapped_between_f32_panics() {
 }
 #[kani::proof]
 #[kani::should_panic]
-fn c17_q_pingpong_f32_panics() {
+fn c17_pingpong_f32_panics_when_upper_not_positive() {
     let v: f32 = kani::any(); let u: f32 = kani::any();
     kani::assume(!(u > 0.0));
     let _ = v.pingpong(u);
     must_be_unreachable();
+}
+
+// ---- NOT registered: no verdict within 1500 s (600 s for the last two) ----
+#[kani::proof]
+fn c17_unregistered_wrapped_f32_range() {
+    let v: f32 = kani::any(); let u: f32 = kani::any();
+    kani::assume(v.abs() <= 1e38 && u <= 1e38 && u > 0.0 && (v / u).is_finite());
+    let r = v.wrapped(u);
+    let tol = tol32(v, u);
+    assert!(!r.is_nan());
+    assert!(-tol <= r && r <= u + tol);
+}
+#[kani::proof]
+fn c17_unregistered_pingpong_f32_range() {
+    let v: f32 = kani::any(); let u: f32 = kani::any();
+    kani::assume(v.abs() <= 1e38 && u <= 5e37 && u > 0.0 && (v / (u + u)).is_finite());
+    let r = v.pingpong(u);
+    let tol = tol32(v, u);
+    assert!(!r.is_nan());
+    assert!(-tol <= r && r <= u);
+}
+#[kani::proof]
+fn c17_unregistered_wrapped_between_f32_range() {
+    let v: f32 = kani::any(); let lo: f32 = kani::any(); let hi: f32 = kani::any();
+    kani::assume(v.abs() <= 1e37 && 0.0 <= lo && lo < hi && hi <= 1e37 && ((v - lo) / (hi - lo)).is_finite());
+    let r = v.wrapped_between(lo, hi);
+    let tol = tol32(v, hi);
+    assert!(!r.is_nan());
+    assert!(lo - tol <= r && r <= hi + tol);
+}
+#[kani::proof]
+fn c17_unregistered_wrapped_2pi_f32_range() {
+    let v: f32 = kani::any();
+    kani::assume(v.abs() <= 1e38);
+    let r = v.wrapped_2pi();
+    let tol = tol32(v, TAU32);
+    assert!(-tol <= r && r <= TAU32 + tol);
+}
+#[kani::proof]
+fn c17_unregistered_wrapped_f32_range_small_symbolic_upper() {
+    let v: f32 = kani::any(); let u: f32 = kani::any();
+    kani::assume(v.abs() <= 64.0 && 1.0 <= u && u <= 64.0);
+    let r = v.wrapped(u);
+    let tol = tol32(v, u);
+    assert!(-tol <= r && r <= u + tol);
+}
+#[kani::proof]
+fn c17_unregistered_delta_angle_f32_congruent_bounded1024() {
+    let s: f32 = kani::any(); let t: f32 = kani::any();
+    kani::assume(s.abs() <= 1024.0 && t.abs() <= 1024.0);
+    let r = s.delta_angle(t);
+    let d = t - s;
+    let k = (d / TAU32).floor();
+    let e = d as f64 - k as f64 * TAU32 as f64 - r as f64;
+    let tol = tol32(d, TAU32) as f64;
+    assert!(e.abs() <= tol || (e - TAU32 as f64).abs() <= tol);
 }
